@@ -357,6 +357,9 @@ def _w_instance_history(S_unused, wrapped):
     variants = [(2, c0, {}), (1, c0, {}), (1, c0, grow), (2, c0, {})]
     if 'combine_colour' not in p:
         variants.insert(2, (1, 3, {}))
+    if kind.startswith(('dtcwt', 'scat')) and p.get('_light'):
+        variants = [(2, c0, {}), (1, c0, {}), (2, c0, {})]      # the dual-tree interpretations are the expensive ones
+    p.pop('_light', None)
     shared = Session(repo)
     try:
         f0, _, _, label = entries.build(shared, kind, p, nb=1, c=c0)
